@@ -68,6 +68,15 @@ type driver struct {
 	known    *knownFile
 	verifDir string
 	fams     []family
+	// thorough-tier enumerated strata (C12)
+	pairProgs []*program // T1: every ordered pair of these on one reused spirv.Backend
+	siteJobs  []siteJob  // T2: (program, operation, map site) triples, one site reversed at a time
+}
+
+type siteJob struct {
+	p    *program
+	kind string
+	site uint32
 }
 
 // record is what one scenario contributed.
@@ -114,12 +123,135 @@ func (d *driver) refsFor(ss *session, sc *proto.Scenario) ([][]*proto.OpResult, 
 
 func (d *driver) generate(i int) *proto.Scenario {
 	seed := simrt.Mix(d.seed, uint64(i))
+	if np := len(d.pairProgs) * len(d.pairProgs); i < np {
+		// T1, exhaustive: program A then program B on one reused default backend
+		a, bb := d.pairProgs[i/len(d.pairProgs)], d.pairProgs[i%len(d.pairProgs)]
+		b := newBuilder(seed, "T1-reuse-pair")
+		t := b.task()
+		be := 0
+		b.sc.Backends = []proto.SpirvOpts{spirvDefault()}
+		ma, _ := b.lower(t, a)
+		mb := ma
+		if bb != a {
+			mb, _ = b.lower(t, bb)
+		}
+		b.add(t, proto.Op{Kind: proto.OpSpirvB, Mod: ma, Backend: be})
+		b.add(t, proto.Op{Kind: proto.OpSpirvB, Mod: mb, Backend: be})
+		b.sc.Sched.Explicit = []proto.Slice{}
+		b.sc.Monitor = 0
+		b.sc.SyncPkgs = d.sites.SyncPkgs
+		return b.sc
+	} else if j := i - np; j < len(d.siteJobs) {
+		// T2, exhaustive over the reached sites: one map site reversed at a time
+		sj := d.siteJobs[j]
+		b := newBuilder(seed, "T2-single-site")
+		t := b.task()
+		m, _ := b.lower(t, sj.p)
+		b.add(t, d.defaultOp(b, sj.kind, m))
+		b.sc.Perm = simrt.PermSpec{Mode: simrt.PermReverse, Sites: []uint32{sj.site}}
+		b.sc.Sched.Explicit = []proto.Slice{}
+		b.sc.Monitor = 0
+		b.sc.SyncPkgs = d.sites.SyncPkgs
+		return b.sc
+	}
 	fr := newRng(seed, 7)
 	fam := pickFamily(fr, d.fams)
 	b := newBuilder(seed, fam.name)
 	fam.gen(b, d.corpus, d.sites.MapSites)
 	b.sc.SyncPkgs = d.sites.SyncPkgs
 	return b.sc
+}
+
+// defaultOp: operation of the given kind with the back end's default options.
+func (d *driver) defaultOp(b *builder, kind string, m int) proto.Op {
+	op := proto.Op{Kind: kind, Mod: m}
+	p := b.progOf[m]
+	switch kind {
+	case proto.OpSpirvB:
+		if len(b.sc.Backends) == 0 {
+			b.sc.Backends = []proto.SpirvOpts{spirvDefault()}
+		}
+	case proto.OpSpirv:
+		o := spirvDefault()
+		o.Debug = true
+		op.Spirv = &o
+	case proto.OpMSL:
+		o := mslDefault()
+		op.MSL = &o
+	case proto.OpGLSL:
+		o := proto.GLSLOpts{Version: proto.Version{Major: 4, Minor: 50}, ForceHighPrecision: true}
+		if p != nil && len(p.info.EntryPoints) > 0 {
+			o.EntryPoint = p.info.EntryPoints[0].Name
+		}
+		op.GLSL = &o
+	case proto.OpHLSL:
+		op.HLSL = &proto.HLSLOpts{ShaderModel: 1, FakeMissingBindings: true, ZeroInitWorkgroup: true, RestrictIndexing: true, ForceLoopBounding: true}
+	case proto.OpDXIL:
+		op.DXIL = &proto.DXILOpts{}
+	}
+	return op
+}
+
+// prepareThorough builds the enumerated strata of the thorough C12 tier.
+func (d *driver) prepareThorough() error {
+	for _, p := range d.corpus.lowerable {
+		if !strings.HasPrefix(p.Name, "composed-") {
+			d.pairProgs = append(d.pairProgs, p)
+		}
+	}
+	if n := envInt("VERIF_PAIR_PROGRAMS", 0); n > 0 && n < len(d.pairProgs) {
+		d.pairProgs = d.pairProgs[:n]
+	}
+	// which sites does each (program, operation) reach with >=2 entries?
+	type pk struct {
+		p    *program
+		kind string
+	}
+	var jobs []pk
+	for _, p := range d.corpus.lowerable {
+		for _, k := range append([]string{proto.OpSpirvB}, backendKinds...) {
+			jobs = append(jobs, pk{p, k})
+		}
+	}
+	res := make([][]uint32, len(jobs))
+	var wg sync.WaitGroup
+	ch := make(chan int, len(jobs))
+	for i := range jobs {
+		ch <- i
+	}
+	close(ch)
+	var firstErr error
+	var mu sync.Mutex
+	for w := 0; w < runtime.NumCPU(); w++ {
+		wg.Add(1)
+		go func() {
+			defer wg.Done()
+			ss := &session{x: d.x}
+			defer ss.close()
+			for i := range ch {
+				b := newBuilder(1, "probe")
+				t := b.task()
+				m, _ := b.lower(t, jobs[i].p)
+				ref := b.add(t, d.defaultOp(b, jobs[i].kind, m))
+				v := d.x.referenceVisits(ss, b.sc, chainFor(b.sc, ref))
+				mu.Lock()
+				res[i] = v
+				mu.Unlock()
+			}
+		}()
+	}
+	wg.Wait()
+	if firstErr != nil {
+		return firstErr
+	}
+	for i, v := range res {
+		for s, n := range v {
+			if n > 0 {
+				d.siteJobs = append(d.siteJobs, siteJob{jobs[i].p, jobs[i].kind, uint32(s)})
+			}
+		}
+	}
+	return nil
 }
 
 // execute runs one scenario end to end (references, run, judge). With
@@ -274,6 +406,9 @@ func main() {
 	switch *prop {
 	case "C12":
 		d.fams = familiesC12
+		if *tier == "thorough" {
+			d.fams = familiesC12Thorough
+		}
 	case "C14":
 		d.fams = familiesC14
 	default:
@@ -291,6 +426,11 @@ func main() {
 		for _, p := range d.corpus.progs {
 			d.meta[p.Name] = p.info.Overrides
 		}
+		if *tier == "thorough" && *prop == "C12" {
+			if err := d.prepareThorough(); err != nil {
+				fail2("%v", err)
+			}
+		}
 		n := *count
 		if n == 0 {
 			n = envInt("VERIF_SCENARIOS", 0)
@@ -298,7 +438,7 @@ func main() {
 		if n == 0 {
 			switch {
 			case *tier == "thorough" && *prop == "C12":
-				n = 150000
+				n = len(d.pairProgs)*len(d.pairProgs) + len(d.siteJobs) + 110000
 			case *tier == "thorough":
 				n = 60000
 			case *prop == "C12":
@@ -360,6 +500,9 @@ func (d *driver) check(n int) int {
 	start := time.Now()
 	fmt.Printf("VERIF_SEED=%d property=%s tier=%s scenarios=%d corpus=%d (lowerable %d, with overrides %d) map_sites=%d yield_sites=%d\n",
 		d.seed, d.prop, d.tier, n, len(d.corpus.progs), len(d.corpus.lowerable), len(d.corpus.withOv), d.sites.MapSites, d.sites.YieldSites)
+	if len(d.pairProgs) > 0 || len(d.siteJobs) > 0 {
+		fmt.Printf("enumerated strata: T1 %d ordered reuse pairs over %d programs; T2 %d (program, operation, reached map site) triples\n", len(d.pairProgs)*len(d.pairProgs), len(d.pairProgs), len(d.siteJobs))
+	}
 	twinEvery := 10
 	if d.tier == "thorough" {
 		twinEvery = 4
